@@ -1,4 +1,7 @@
 //! C09: stream filters decode as specified; compression is lossless (bounded: reference encoders generate the inputs).
+//! Two families of byte strings: 8 small hand-picked payloads through every parameter combination, and the generated
+//! size x redundancy family (`Gen`: kind x length up to several MiB) that walks the decoders' expansion ratio from 1:1 up to
+//! the maximum the formats allow (deflate 1032:1, LZW above 1000:1), where output buffering / growth / limits matter.
 #![allow(dead_code)]
 use crate::common::*;
 use crate::gen::*;
@@ -6,7 +9,7 @@ use lopdf::{Dictionary, Object, Stream};
 use serde_json::{json, Value};
 use std::io::Write as _;
 
-fn zlib(data: &[u8]) -> Vec<u8> { let mut e = flate2::write::ZlibEncoder::new(Vec::new(), flate2::Compression::default()); e.write_all(data).unwrap(); e.finish().unwrap() }
+fn zlib(data: &[u8], level: u32) -> Vec<u8> { let mut e = flate2::write::ZlibEncoder::new(Vec::new(), flate2::Compression::new(level)); e.write_all(data).unwrap(); e.finish().unwrap() }
 fn lzw(data: &[u8], early: bool) -> Vec<u8> {
     let mut enc = if early { weezl::encode::Encoder::with_tiff_size_switch(weezl::BitOrder::Msb, 8) } else { weezl::encode::Encoder::new(weezl::BitOrder::Msb, 8) };
     enc.encode(data).unwrap()
@@ -49,7 +52,54 @@ fn png_predict(data: &[u8], bpp: usize, row: usize, pick: impl Fn(usize) -> u8) 
 }
 
 #[derive(Clone, Debug)]
-pub struct Case { pub data: Vec<u8>, pub chain: Vec<u8>, pub predictor: i64, pub colors: usize, pub bits: usize, pub columns: usize, pub early: i64, pub parms_array: bool, pub a85_ws: bool }
+pub struct Case { pub data: Vec<u8>, pub chain: Vec<u8>, pub predictor: i64, pub colors: usize, pub bits: usize, pub columns: usize, pub early: i64, pub parms_array: bool, pub a85_ws: bool,
+    /// level of the reference deflate encoder (0 = stored blocks .. 9 = best): different legal encodings of the same bytes
+    pub level: u32,
+    /// how `data` was generated, when it is a member of the size x redundancy family (so that a multi-megabyte input replays from three numbers)
+    pub gen: Option<Gen> }
+
+/// The size x redundancy dimension of "all byte strings": a payload is (kind, length, parameter). The kinds span the
+/// whole range of expansion ratios a decoder can meet, from 1:1 (noise: deflate falls back to stored blocks, LZW to 9..12-bit
+/// literals) to the maximum of the formats (a run of one byte value: deflate codes 258 bytes in 2 bits = 1032:1, LZW
+/// codes up to ~3800 bytes in 12 bits); the ratio only approaches the maximum when the length is large, because the
+/// stream framing (zlib header, block header, end-of-block, Adler-32) is a constant ~20 bytes.
+#[derive(Clone, Debug, PartialEq)]
+pub struct Gen { pub kind: String, pub len: usize, pub p: usize }
+pub const KINDS: [&str; 6] = ["const", "period", "runs", "sparse", "text", "noise"];
+impl Gen {
+    pub fn data(&self) -> Vec<u8> {
+        let (n, p) = (self.len, self.p.max(1));
+        let mut x: u64 = 0x9e3779b97f4a7c15 ^ (p as u64).wrapping_mul(0xbf58476d1ce4e5b9);
+        let mut rnd = move || { x ^= x << 13; x ^= x >> 7; x ^= x << 17; (x >> 24) as u8 };
+        match self.kind.as_str() {
+            // a run of the one byte value p (blank raster, zero-filled table)
+            "const" => vec![self.p as u8; n],
+            // a pattern of period p
+            "period" => (0..n).map(|i| ((i % p) as u8).wrapping_mul(37).wrapping_add(11)).collect(),
+            // runs of length p of changing values
+            "runs" => (0..n).map(|i| ((i / p) as u8).wrapping_mul(101)).collect(),
+            // zeros with one non-zero byte every p bytes
+            "sparse" => (0..n).map(|i| if i % p == p - 1 { ((i / p) as u8) | 1 } else { 0 }).collect(),
+            // pseudo-random over an alphabet of 16 symbols (about 2:1)
+            "text" => (0..n).map(|_| b"etaoin shrdlu\n()"[(rnd() & 15) as usize]).collect(),
+            // pseudo-random bytes (incompressible)
+            _ => (0..n).map(|_| rnd()).collect(),
+        }
+    }
+    fn json(&self) -> Value { json!({"kind": self.kind, "len": self.len, "p": self.p}) }
+    fn from(v: &Value) -> Option<Gen> { Some(Gen { kind: v.get("kind")?.as_str()?.to_string(), len: v.get("len")?.as_u64()? as usize, p: v.get("p")?.as_u64()? as usize }) }
+    fn describe(&self) -> String { format!("{} bytes of kind {:?} (parameter {})", self.len, self.kind, self.p) }
+}
+/// the payloads of the size x redundancy family: lengths on a geometric ladder x kinds (x 2 parameters per kind in the thorough tier)
+fn gens(thorough: bool) -> Vec<Gen> {
+    let lens: Vec<usize> = if thorough { (10..=23).flat_map(|k| if k < 23 { vec![1usize << k, 3usize << (k - 1)] } else { vec![1usize << k] }).collect() } else { vec![1 << 10, 1 << 13, 1 << 16, 1 << 18, 1 << 20, 1 << 21, 1 << 22] };
+    let mut v = vec![];
+    for len in lens { for kind in KINDS {
+        let ps: Vec<usize> = match kind { "const" => vec![0, 255], "period" => vec![3, 1000], "runs" => vec![4096, 300], "sparse" => vec![512, 40000], "text" => vec![1, 2], _ => vec![1, 2] };
+        for (j, p) in ps.into_iter().enumerate() { if j == 0 || thorough { v.push(Gen { kind: kind.into(), len, p }); } }
+    } }
+    v
+}
 
 fn payloads() -> Vec<Vec<u8>> {
     vec![vec![], vec![0], b"abc".to_vec(), vec![0, 0, 0, 0, 1, 2, 3, 4, 0, 0, 0, 0], (0..=255u8).collect(), (0..96u8).map(|i| i.wrapping_mul(73) ^ 0x5a).collect(), vec![255; 40], (0..64u8).map(|i| if i % 2 == 0 { 1 } else { 255 }).collect()]
@@ -71,7 +121,7 @@ pub fn build(c: &Case) -> Stream {
                     cur = png_predict(&cur, bpp, row, |r| if c.predictor == 15 { (r % 5) as u8 } else { (c.predictor - 10) as u8 });
                     d.set("Predictor", c.predictor); d.set("Columns", c.columns as i64); if c.colors != 1 { d.set("Colors", c.colors as i64); } if c.bits != 8 { d.set("BitsPerComponent", c.bits as i64); }
                 }
-                if *f == b'L' { if c.early == 0 { d.set("EarlyChange", 0i64); } cur = lzw(&cur, c.early != 0); names.push(b"LZWDecode".to_vec()); } else { cur = zlib(&cur); names.push(b"FlateDecode".to_vec()); }
+                if *f == b'L' { if c.early == 0 { d.set("EarlyChange", 0i64); } cur = lzw(&cur, c.early != 0); names.push(b"LZWDecode".to_vec()); } else { cur = zlib(&cur, c.level); names.push(b"FlateDecode".to_vec()); }
                 parms.push(if d.is_empty() { Object::Null } else { Object::Dictionary(d) });
             }
             _ => { cur = a85(&cur, c.a85_ws, true); names.push(b"ASCII85Decode".to_vec()); parms.push(Object::Null); }
@@ -86,15 +136,23 @@ pub fn build(c: &Case) -> Stream {
     Stream::new(dict, cur)
 }
 
-pub fn check(c: &Case) -> Result<(), (String, String)> {
+pub fn check(c: &Case) -> Result<(), (String, String)> { check_len(c).1 }
+/// as `check`; also says how long the encoded stream was (to report the expansion ratios the family reached)
+pub fn check_len(c: &Case) -> (usize, Result<(), (String, String)>) {
     let bpp = (c.colors * c.bits / 8).max(1);
-    if c.predictor >= 10 && (c.data.len() % (bpp * c.columns) != 0) { return Ok(()); }
+    if c.predictor >= 10 && (c.data.len() % (bpp * c.columns) != 0) { return (0, Ok(())); }
     let st = build(c);
-    match guarded(std::panic::AssertUnwindSafe(|| st.decompressed_content())) {
+    (st.content.len(), match guarded(std::panic::AssertUnwindSafe(|| st.decompressed_content())) {
         Err(p) => Err(("no-panic".into(), p)),
         Ok(Err(e)) => Err(("decodes".into(), format!("{:?}: {}", st.dict, e))),
-        Ok(Ok(d)) => if d == c.data { Ok(()) } else { Err(("decode-equals-reference".into(), format!("dict {:?}: decoded {} bytes {:02x?}.., expected {} bytes {:02x?}..", st.dict, d.len(), &d[..d.len().min(12)], c.data.len(), &c.data[..c.data.len().min(12)]))) },
-    }
+        Ok(Ok(d)) => if d == c.data { Ok(()) } else { Err(("decode-equals-reference".into(), format!("{}dict {:?}: decoded {} bytes {:02x?}.., expected {} bytes {:02x?}..{}", c.gen.as_ref().map(|g| format!("payload {}, ", g.describe())).unwrap_or_default(), st.dict, d.len(), &d[..d.len().min(12)], c.data.len(), &c.data[..c.data.len().min(12)], differ(&d, &c.data, st.content.len())))) },
+    })
+}
+
+/// where two byte strings first differ, and the expansion of the encoded stream (for the failure text)
+fn differ(got: &[u8], want: &[u8], encoded: usize) -> String {
+    let at = got.iter().zip(want.iter()).position(|(a, b)| a != b).unwrap_or(got.len().min(want.len()));
+    format!(" (first difference at offset {}{}; the encoded stream has {} bytes, so the expected expansion is {:.1}:1)", at, if at == got.len() && got.len() < want.len() { ": the decoded content is a proper prefix of the expected content" } else { "" }, encoded, want.len() as f64 / encoded.max(1) as f64)
 }
 
 /// compress -> decode is the identity, never longer, Length maintained; decompress then compress again is still decodable
@@ -105,11 +163,11 @@ pub fn check_compress(data: &[u8]) -> Result<(), (String, String)> {
     if !len_ok(&s) { return Err(("length-invariant".into(), "Length != content length after compress".into())); }
     if s.content.len() > data.len() { return Err(("never-longer".into(), format!("{} bytes became {}", data.len(), s.content.len()))); }
     let back = if s.dict.has(b"Filter") { s.decompressed_content().map_err(|e| ("lossless".to_string(), e.to_string()))? } else { s.content.clone() };
-    if back != data { return Err(("lossless".into(), "compress then decode differs from the original".into())); }
+    if back != data { return Err(("lossless".into(), format!("compress() then decompressed_content() differs from the original: {} bytes came back as {} bytes{}", data.len(), back.len(), differ(&back, data, s.content.len())))); }
     let mut t = s.clone();
     if t.dict.has(b"Filter") { t.decompress().map_err(|e| ("decompress".to_string(), e.to_string()))?; }
     if !len_ok(&t) || t.dict.has(b"Filter") || t.dict.has(b"DecodeParms") { return Err(("length-invariant".into(), format!("after decompress: {:?}", t.dict))); }
-    if t.content != data { return Err(("lossless".into(), "decompress differs".into())); }
+    if t.content != data { return Err(("lossless".into(), format!("compress() then decompress() differs from the original: {} bytes came back as {} bytes{}", data.len(), t.content.len(), differ(&t.content, data, s.content.len())))); }
     Ok(())
 }
 
@@ -121,25 +179,30 @@ pub fn check_recompress(c: &Case) -> Result<(), (String, String)> {
     if st.decompress().is_err() { return Ok(()); }
     st.compress().map_err(|e| ("compress".to_string(), e.to_string()))?;
     let back = if st.dict.has(b"Filter") { st.decompressed_content().map_err(|e| ("recompress-decodes".to_string(), format!("{:?}: {}", st.dict, e)))? } else { st.content.clone() };
-    if back != c.data { return Err(("recompress-decodes".into(), format!("after decompress + compress the stream {:?} decodes to different bytes", st.dict))); }
+    if back != c.data { return Err(("recompress-decodes".into(), format!("{}after decompress + compress the stream {:?} decodes to different bytes: {} bytes instead of {}{}", c.gen.as_ref().map(|g| format!("payload {}, ", g.describe())).unwrap_or_default(), st.dict, back.len(), c.data.len(), differ(&back, &c.data, st.content.len())))); }
     Ok(())
 }
 
-fn case_json(c: &Case) -> Value { json!({"data": hex(&c.data), "chain": String::from_utf8_lossy(&c.chain), "predictor": c.predictor, "colors": c.colors, "bits": c.bits, "columns": c.columns, "early": c.early, "parms_array": c.parms_array, "a85_ws": c.a85_ws}) }
-fn case_from(v: &Value) -> Case { Case { data: unhex(v["data"].as_str().unwrap_or("")), chain: v["chain"].as_str().unwrap_or("F").as_bytes().to_vec(), predictor: v["predictor"].as_i64().unwrap_or(1), colors: v["colors"].as_u64().unwrap_or(1) as usize, bits: v["bits"].as_u64().unwrap_or(8) as usize, columns: v["columns"].as_u64().unwrap_or(1) as usize, early: v["early"].as_i64().unwrap_or(1), parms_array: v["parms_array"].as_bool().unwrap_or(false), a85_ws: v["a85_ws"].as_bool().unwrap_or(false) } }
+fn case_json(c: &Case) -> Value { json!({"data": if c.gen.is_some() { String::new() } else { hex(&c.data) }, "gen": c.gen.as_ref().map(|g| g.json()), "level": c.level, "chain": String::from_utf8_lossy(&c.chain), "predictor": c.predictor, "colors": c.colors, "bits": c.bits, "columns": c.columns, "early": c.early, "parms_array": c.parms_array, "a85_ws": c.a85_ws}) }
+fn case_from(v: &Value) -> Case { let gen = Gen::from(&v["gen"]); Case { data: match &gen { Some(g) => g.data(), None => unhex(v["data"].as_str().unwrap_or("")) }, gen, level: v["level"].as_u64().unwrap_or(6) as u32, chain: v["chain"].as_str().unwrap_or("F").as_bytes().to_vec(), predictor: v["predictor"].as_i64().unwrap_or(1), colors: v["colors"].as_u64().unwrap_or(1) as usize, bits: v["bits"].as_u64().unwrap_or(8) as usize, columns: v["columns"].as_u64().unwrap_or(1) as usize, early: v["early"].as_i64().unwrap_or(1), parms_array: v["parms_array"].as_bool().unwrap_or(false), a85_ws: v["a85_ws"].as_bool().unwrap_or(false) } }
 
 pub fn run(thorough: bool) -> Report {
-    let mut rep = Report::new("8 payloads x all filter chains of length 1..3 over {Flate, LZW, ASCII85} x predictor {1,10..15} x (Colors,BitsPerComponent) in {(1,8),(3,8),(1,16),(4,8)} x Columns {1,2,4} x EarlyChange {0,1} x DecodeParms as dictionary / parallel array x ASCII85 white-space; plus every ASCII85 final partial group for lengths 0..16", true);
+    let small = "8 small payloads x all filter chains of length 1..3 over {Flate, LZW, ASCII85} x predictor {1,10..15} x (Colors,BitsPerComponent) in {(1,8),(3,8),(1,16),(4,8)} x Columns {1,2,4} x EarlyChange {0,1} x DecodeParms as dictionary / parallel array x ASCII85 white-space; plus every ASCII85 final partial group for lengths 0..16";
+    let family = if thorough {
+        "plus the size x redundancy family of byte strings: kind {const (one byte value p in {0,255}), period (p in {3,1000}), runs (of length p in {4096,300}), sparse (zeros, one non-zero byte every p in {512,40000}), text (pseudo-random over 16 symbols, 2 seeds), noise (pseudo-random bytes, 2 seeds)} x length {2^k for k=10..23, 3*2^(k-1) for k=10..22} (up to 8 MiB; FlateDecode expansion from 1:1 = stored blocks up to ~1028:1 of deflate's maximum 1032:1, LZWDecode up to ~1265:1; the exact figures are in the first sample) x all filter chains of length 1..2 x (Predictor,Colors,BitsPerComponent,Columns) in {none,(12,1,8,1024),(15,4,8,64),(11,1,16,2048),(14,3,8,512)} x level of the reference deflate encoder {0,1,6,9} x EarlyChange {0,1}; every payload of the family also through compress() / decompressed_content() / decompress() (lossless, never longer, Length)"
+    } else {
+        "plus the size x redundancy family of byte strings: kind {const (byte value 0), period 3, runs of length 4096, sparse (zeros, one non-zero byte every 512), text (pseudo-random over 16 symbols), noise (pseudo-random bytes)} x length {2^10, 2^13, 2^16, 2^18, 2^20, 2^21, 2^22} (up to 4 MiB; FlateDecode expansion from 1:1 = stored blocks up to ~1026:1 of deflate's maximum 1032:1, LZWDecode up to ~1050:1; the exact figures are in the first sample) x all filter chains of length 1..2 x (Predictor,Colors,BitsPerComponent,Columns) in {none,(12,1,8,1024),(15,4,8,64)} x level of the reference deflate encoder {6,9} x EarlyChange {1; 0 for single-filter chains}; every payload of the family also through compress() / decompressed_content() / decompress() (lossless, never longer, Length)"
+    };
+    let mut rep = Report::new(&format!("{}; {}", small, family), true);
     let mut chains: Vec<Vec<u8>> = vec![];
     for a in b"FLA" { chains.push(vec![*a]); for b in b"FLA" { chains.push(vec![*a, *b]); for c in b"FLA" { chains.push(vec![*a, *b, *c]); } } }
-    let _ = thorough;
     let mut cases: Vec<Case> = vec![];
     for data in payloads() { for chain in &chains { for predictor in [1i64, 10, 11, 12, 13, 14, 15] { for (colors, bits) in [(1usize, 8usize), (3, 8), (1, 16), (4, 8)] { for columns in [1usize, 2, 4] { for early in [0i64, 1] { for parms_array in [false, true] {
         let last = *chain.last().unwrap();
         if predictor >= 10 && last == b'A' { continue; }
         if predictor == 1 && (colors != 1 || columns != 1) { continue; }
         if early == 0 && !chain.contains(&b'L') { continue; }
-        cases.push(Case { data: data.clone(), chain: chain.clone(), predictor, colors, bits, columns, early, parms_array, a85_ws: columns == 2 });
+        cases.push(Case { data: data.clone(), chain: chain.clone(), predictor, colors, bits, columns, early, parms_array, a85_ws: columns == 2, level: 6, gen: None });
     } } } } } } }
     use rayon::prelude::*;
     let results: Vec<(usize, Vec<(String, String, Value)>)> = cases.par_iter().enumerate().map(|(i, c)| {
@@ -149,15 +212,55 @@ pub fn run(thorough: bool) -> Report {
         (i, f)
     }).collect();
     for (i, f) in results { rep.case(!cases[i].data.is_empty()); for (o, d, inp) in f { rep.fail(&o, d.clone(), inp, d); } }
-    for n in 0..=16usize { let data: Vec<u8> = (0..n as u8).map(|i| i.wrapping_mul(67).wrapping_add(200)).collect(); let c = Case { data, chain: vec![b'A'], predictor: 1, colors: 1, bits: 8, columns: 1, early: 1, parms_array: false, a85_ws: n % 2 == 0 }; rep.case(true); if let Err((o, d)) = check(&c) { rep.fail(&o, d.clone(), case_json(&c), d); } }
+    for n in 0..=16usize { let data: Vec<u8> = (0..n as u8).map(|i| i.wrapping_mul(67).wrapping_add(200)).collect(); let c = Case { data, chain: vec![b'A'], predictor: 1, colors: 1, bits: 8, columns: 1, early: 1, parms_array: false, a85_ws: n % 2 == 0, level: 6, gen: None }; rep.case(true); if let Err((o, d)) = check(&c) { rep.fail(&o, d.clone(), case_json(&c), d); } }
     for data in payloads() { rep.case(true); if let Err((o, d)) = check_compress(&data) { rep.fail(&o, d.clone(), json!({"compress": hex(&data)}), d); } }
     let big: Vec<u8> = (0..5000u32).map(|i| (i % 7) as u8).collect();
     if let Err((o, d)) = check_compress(&big) { rep.fail(&o, d.clone(), json!({"compress": hex(&big)}), d); }
+    // ---- the size x redundancy family (see `Gen`): every generated payload through every chain of length 1..2, with and
+    // without a PNG predictor of realistic row width, at several levels of the reference deflate encoder, and through compress()
+    #[derive(Clone)]
+    struct Big { g: Gen, chain: Vec<u8>, predictor: i64, colors: usize, bits: usize, columns: usize, early: i64, level: u32, compress: bool }
+    let geoms: Vec<(i64, usize, usize, usize)> = if thorough { vec![(1, 1, 8, 1), (12, 1, 8, 1024), (15, 4, 8, 64), (11, 1, 16, 2048), (14, 3, 8, 512)] } else { vec![(1, 1, 8, 1), (12, 1, 8, 1024), (15, 4, 8, 64)] };
+    let levels: Vec<u32> = if thorough { vec![0, 1, 6, 9] } else { vec![6, 9] };
+    let mut bigs: Vec<Big> = vec![];
+    for g in gens(thorough) {
+        bigs.push(Big { g: g.clone(), chain: vec![], predictor: 1, colors: 1, bits: 8, columns: 1, early: 1, level: 9, compress: true });
+        for chain in chains.iter().filter(|c| c.len() <= 2) { for &(predictor, colors, bits, columns) in &geoms { for &level in &levels { for early in [1i64, 0] {
+            if predictor >= 10 && (*chain.last().unwrap() == b'A' || g.len % ((colors * bits / 8) * columns) != 0) { continue; }
+            if level != levels[0] && !chain.contains(&b'F') { continue; }
+            if early == 0 && (!chain.contains(&b'L') || (!thorough && chain.len() > 1)) { continue; }
+            bigs.push(Big { g: g.clone(), chain: chain.clone(), predictor, colors, bits, columns, early, level, compress: false });
+        } } } }
+    }
+    bigs.sort_by(|a, b| b.g.len.cmp(&a.g.len)); // longest first, so that the parallel schedule has no long tail
+    // (failures, encoded length) per case
+    let big_results: Vec<(Vec<(String, String, Value)>, usize)> = bigs.par_iter().map(|b| {
+        let data = b.g.data();
+        let mut f = vec![];
+        if b.compress { if let Err((o, d)) = check_compress(&data) { f.push((o, format!("payload {}: {}", b.g.describe(), d), json!({"compress_gen": b.g.json()}))); } return (f, 0); }
+        let c = Case { data, chain: b.chain.clone(), predictor: b.predictor, colors: b.colors, bits: b.bits, columns: b.columns, early: b.early, parms_array: false, a85_ws: b.g.len.trailing_zeros() % 2 == 0, level: b.level, gen: Some(b.g.clone()) };
+        let (enc, r) = check_len(&c);
+        if let Err((o, d)) = r { f.push((o, d, case_json(&c))); }
+        if c.chain.len() == 1 && c.predictor >= 10 { if let Err((o, d)) = check_recompress(&c) { f.push((o, d, json!({"recompress": case_json(&c)}))); } }
+        (f, enc)
+    }).collect();
+    let (mut max_f, mut max_l, mut min_f) = ((0f64, String::new()), (0f64, String::new()), f64::MAX);
+    for (b, (f, enc)) in bigs.iter().zip(big_results) {
+        rep.case(true);
+        for (o, d, inp) in f { rep.fail(&o, d.clone(), inp, d); }
+        if !b.compress && b.chain.len() == 1 && b.predictor == 1 && enc > 0 {
+            let ratio = b.g.len as f64 / enc as f64;
+            let what = format!("{:.1}:1 for {} at {}", ratio, b.g.describe(), if b.chain[0] == b'F' { format!("deflate level {}", b.level) } else { format!("EarlyChange {}", b.early) });
+            if b.chain[0] == b'F' { if ratio > max_f.0 { max_f = (ratio, what); } if ratio < min_f { min_f = ratio; } } else if b.chain[0] == b'L' && ratio > max_l.0 { max_l = (ratio, what); }
+        }
+    }
+    rep.sample(format!("expansion ratios reached by the size x redundancy family: FlateDecode from {:.3}:1 up to {} (the format's maximum is 1032:1); LZWDecode up to {}", min_f, max_f.1, max_l.1));
     rep.sample("payload 0..=255, chain [ASCII85Decode FlateDecode], Predictor 15, Colors 3, Columns 4, DecodeParms [null <<...>>]".into());
     rep
 }
 
 pub fn replay(v: &Value) -> Result<(), String> {
+    if let Some(g) = Gen::from(&v["compress_gen"]) { return check_compress(&g.data()).map_err(|e| format!("payload {}: {}: {}", g.describe(), e.0, e.1)); }
     if let Some(h) = v["compress"].as_str() { return check_compress(&unhex(h)).map_err(|e| format!("{}: {}", e.0, e.1)); }
     if v.get("recompress").is_some() { return check_recompress(&case_from(&v["recompress"])).map_err(|e| format!("{}: {}", e.0, e.1)); }
     check(&case_from(v)).map_err(|e| format!("{}: {}", e.0, e.1))
